@@ -155,7 +155,7 @@ class FnTotality:
 
     def need_min(self, site, L, need, what):
         """Obligation need <= L."""
-        if need == INF or need >= (1 << 62):
+        if need == INF or need >= (1 << 62) or need >= self.ev.ptr_max // 2:
             site.status = "open"
             site.why = "%s: required length unbounded" % what
             return
@@ -232,6 +232,12 @@ class FnTotality:
             blk = b.blocks[bi]
             t = blk["t"]
             ev = self.ev.at_block(bi)
+            # a closure built here may be called (by an iterator adaptor, sort_by, ...): edge to its body
+            for st_ in blk["s"]:
+                if st_[0] == "A" and st_[2][0] == "agg" and st_[2][1].get("k") == "closure":
+                    cf = self.f.fns.get(st_[2][1].get("path"))
+                    if cf is not None:
+                        self.calls.append((bi, cf, [], st_[3]))
             # Index projections with bounds asserts
             if t[0] == "assert":
                 kind = t[3]
@@ -325,13 +331,25 @@ class FnTotality:
                     s = Site(self.fn, bi, "range", disc_with_ordinal("split_at:%s" % self.name_of_place_root(args[0])), t[5], mac)
                     L = self.slice_lenval(args[0], bi)
                     mid = ev.op_ival(args[1])
-                    if mid is not None and mid[1] != INF:
+                    if ev.provably_le_len(args[1], ev.len_key(args[0], [])):
+                        s.status = "discharged"
+                        s.why = "split point <= len structurally (min() / remaining-length upper bound)"
+                    elif mid is not None and mid[1] != INF:
                         self.need_min(s, L, mid[1], "split_at")
                     else:
                         s.why = "split point unknown"
                     self.sites.append(s)
+                elif (name.endswith("]>::chunks") or name.endswith("]>::chunks_exact") or name.endswith("]>::windows")
+                      or name.endswith("]>::chunks_mut") or name.endswith("]>::chunks_exact_mut") or name.endswith("::step_by")) \
+                        and len(args) >= 2 and (ev.op_ival(args[1]) or (0, 0))[0] >= 1:
+                    # these panic only for a zero size / step: a constant (or provably positive) argument cannot
+                    s = Site(self.fn, bi, "stdpanic", disc_with_ordinal(name.split("::")[-1]), t[5], mac)
+                    s.status = "discharged"
+                    s.why = "size argument >= 1"
+                    self.sites.append(s)
                 elif name.endswith("Vec::<T, A>::insert") \
-                        or name.endswith("::swap") or name.endswith("]>::chunks") or name.endswith("::step_by") \
+                        or name.endswith("::swap") or name.endswith("]>::chunks") or name.endswith("]>::chunks_exact") or name.endswith("]>::windows") \
+                        or name.endswith("]>::chunks_mut") or name.endswith("]>::chunks_exact_mut") or name.endswith("::step_by") \
                         or name.endswith("Vec::<T, A>::remove") or name.endswith("::copy_within") or name.endswith("Vec::<T, A>::drain"):
                     self.sites.append(Site(self.fn, bi, "stdpanic", disc_with_ordinal(name.split("::")[-1]), t[5], mac))
         return self
@@ -425,6 +443,8 @@ class FnTotality:
                 s.why = "range end unknown"
             else:
                 self.need_min(s, base, c[1] + (1 if kind == "toinc" else 0), "range end")
+        if kind == "range" and s.status == "open":
+            self._range_lin_req(ev, args, s)      # last resort: a linear relation between parameters, owed by the callers
         self.sites.append(s)
 
     def _range_param_relative(self, ev, args, base, s):
@@ -449,6 +469,73 @@ class FnTotality:
         s.req = (base.sym[0], "minp", (atom[1], int(lf[1])))
         s.why = "range end: requires len(%s) >= %s + %d" % (self.pname(base.sym[0]), self.pname(atom[1]), lf[1])
         return True
+
+    def _paramish(self, atom):
+        """atom of a linear form that a caller can re-express: a never-assigned unsigned by-value parameter, or the
+        length of a parameter slice"""
+        if atom[0] == "l":
+            l = atom[1]
+            return 0 < l <= self.fn["argc"] and not self.body.defs().get(l) and self.f.ty(self.body.local_ty(l)).get("k") == "uint"
+        if atom[0] == "len":
+            return isinstance(atom[1], int) and 0 < atom[1] <= self.fn["argc"]
+        return False
+
+    def _range_lin_req(self, ev, args, s):
+        """`self.buf[ptr..ptr + chunk.len()]`: start <= end structurally and `end <= len` is a linear relation between
+        parameters (values and slice lengths): it becomes a requirement ('lin') that every caller must establish."""
+        ro = ev.range_operands(args[1])
+        if ro is None or not ev.diff_nonneg(ro[1], ro[2]):
+            return False
+        reads = []
+        lk = ev.len_key(args[0], reads)
+        if lk is None:
+            return False
+        le, ll = ev.linform(ev.expr_key(ro[2], reads)), ev.linform(lk)
+        if le is None or ll is None or not ev.reads_consistent(reads):
+            return False
+        d = dict(le[0])
+        for k_, v_ in ll[0].items():
+            d[k_] = d.get(k_, 0) - v_
+        d = {k_: v_ for k_, v_ in d.items() if v_ != 0}
+        if not d or not all(self._paramish(a) for a in d):
+            return False
+        s.status = "req"
+        s.req = (0, "lin", (tuple(sorted(d.items(), key=str)), int(le[1] - ll[1])))
+        s.why = "range end: requires %s + %d <= 0 of the caller's arguments" % (
+            " + ".join("%d*%s(%s)" % (v_, "len" if a[0] == "len" else "", self.pname(a[1])) for a, v_ in sorted(d.items(), key=str)), le[1] - ll[1])
+        return True
+
+    def lin_at_call(self, bi, args, lin):
+        """Re-express a callee's linear requirement at this call site.  -> ('ok'|'req'|'open', payload)"""
+        atoms, const = lin
+        ev = self.ev.at_block(bi)
+        reads = []
+        tot = {}
+        c = const
+        for a, coef in atoms:
+            if a[1] - 1 >= len(args):
+                return "open", None
+            key = ev.expr_key(args[a[1] - 1], reads) if a[0] == "l" else ev.len_key(args[a[1] - 1], reads)
+            if key is None:
+                return "open", None
+            lf = ev.linform(key)
+            if lf is None:
+                return "open", None
+            for k_, v_ in lf[0].items():
+                tot[k_] = tot.get(k_, 0) + coef * v_
+            c += coef * lf[1]
+        alts = ev.ub_expand((tot, c), reads)
+        if not ev.reads_consistent(reads):
+            return "open", None
+        for (d_, c_) in alts:
+            nz = {k_: v_ for k_, v_ in d_.items() if v_ != 0}
+            if not nz and c_ <= 0:
+                return "ok", None
+        for (d_, c_) in alts:
+            nz = {k_: v_ for k_, v_ in d_.items() if v_ != 0}
+            if nz and all(self._paramish(a) for a in nz):
+                return "req", (tuple(sorted(nz.items(), key=str)), int(c_))
+        return "open", None
 
     def _range_symbolic_ok(self, ev, args):
         ro = ev.range_operands(args[1])
@@ -608,6 +695,26 @@ class Totality:
                         if key in self.callreq_sites:
                             continue
                         if param - 1 >= len(args):
+                            continue
+                        if kind == "lin":
+                            s = Site(a.fn, bi, "callreq", "call:%s:lin" % norm_name(tgt["name"]).split("::")[-1], line)
+                            st_, payload = a.lin_at_call(bi, args, value)
+                            if st_ == "ok":
+                                s.status = "discharged"
+                                s.why = "callee %s: linear relation between the arguments holds structurally" % tgt["name"]
+                            elif st_ == "req":
+                                s.status = "req"
+                                s.req = (0, "lin", payload)
+                                s.why = "callee %s: linear requirement passed on to the callers" % tgt["name"]
+                            else:
+                                s.status = "open"
+                                s.why = "callee %s: cannot establish the linear relation between the arguments" % tgt["name"]
+                            s.callee = origin
+                            self.callreq_sites[key] = s
+                            a.sites.append(s)
+                            if s.status == "req":
+                                self.reqs[fid].append((s.req[0], s.req[1], s.req[2], s))
+                            changed = True
                             continue
                         if kind == "minp":
                             # len(arg[param]) >= arg[value parameter] + c: evaluate the value argument here
